@@ -54,7 +54,7 @@ def validate(prop, n):
         for p in PROPS:
             rc, out = sh(f"VERIF_NOEVIDENCE=1 {BIN} check -p {p} -repo {wt}", "/verif", 300)
             if rc != 0:
-                rules = sorted(set(re.findall(r"rule=(\S+) construct=(\S+)", out)))
+                rules = sorted(set(re.findall(r"^(?:VIOLATION|UNDECIDED)[^\n]*?rule=(\S+) construct=(\S+)", out, re.M)))
                 caught[p] = {"exit": rc, "rules": [f"{a} {b}" for a, b in rules][:8]}
         res["caught_by"] = caught
     finally:
